@@ -40,8 +40,8 @@ Consume ==
           ELSE IF ~open THEN Closed(e)
           ELSE IF /\ run.res.st = "ok"
                   /\ CanOk(cat, files, e)
-                  /\ HintOk(cat, files, e, HintOf(e, run, cat))
-               THEN Succeed(e, HintOf(e, run, cat))
+                  /\ HintOk(cat, files, e, HintOf(e, run, cat, files))
+               THEN Succeed(e, HintOf(e, run, cat, files))
                ELSE UNCHANGED vars     \* failed, or not an admissible success (flagged below)
 
 TraceNext == Consume
@@ -159,8 +159,12 @@ InvC14 == ForRuns(LAMBDA e, r :
                       IndexCatalogAuditOk(r.audit, cat) /\ EntriesAuditOk(r.audit, cat))
 
 (* C15: every backend gives the same observable results                    *)
+\* (diagnostic texts and the query fingerprints are not results)
+ResultFields(r) == DOMAIN r.res \ {"msg", "stack", "qfp"}
 InvBackendsAgree ==
-    HaveLast => \A i, j \in DOMAIN Last.runs : Last.runs[i].res = Last.runs[j].res
+    HaveLast => \A i, j \in DOMAIN Last.runs :
+                   /\ ResultFields(Last.runs[i]) = ResultFields(Last.runs[j])
+                   /\ \A k \in ResultFields(Last.runs[i]) : Last.runs[i].res[k] = Last.runs[j].res[k]
 
 (* C19                                                                     *)
 C19Ops == {"Export", "Import"}
